@@ -456,7 +456,7 @@ class Lib:
                 t = F('icons', Int, ISeq, ISeq)(intterm(x), t)
             return SeqV('I', t, True)
         if isinstance(oa, SymListO) and isinstance(ob, SymListO):
-            i = z3.Int('i!cat')
+            i = smt.bound('icat', Int)
             ek = oa.ekind if oa.ekind not in (None, 'none') else ob.ekind
             return run.st.alloc(SymListO(oa.length + ob.length,
                                          z3.Lambda([i], z3.If(i < oa.length, oa.elems[i], ob.elems[i - oa.length])), ek))
